@@ -11,6 +11,7 @@
     stream placement over <= 3 parameters / return members (720); duplicate names in every scope kind, inherited
     operations through chains and diamonds, alias of optional, module placement (34); every built-in attribute x 17
     targets (incl. base interface and underlying type) x 6 argument shapes x repeated (1 428);
+    lists of up to three attributes in front of one operation (155): E026 iff a non-repeatable one occurs twice;
     Inheritance.tla / MC_Inherit: every acyclic hierarchy of <= 4 (5) interfaces with <= 2 written bases each x every
     assignment of two operation names x 3 layouts (declaration order, reverse, two files): TLC checks that the closure
     the code computes (own bases, then the bases' closures, first occurrence kept) is the transitive closure and that
@@ -33,7 +34,7 @@ def signature(f):
 
 
 def run(ctx):
-    for fam in ("members", "enums", "keys", "stream", "names", "attrs"):
+    for fam in ("members", "enums", "keys", "stream", "names", "attrs", "attrlists"):
         cfg = "MC_Rules_%s_%s" % (fam, ctx.tier if fam == "enums" else "quick")
         ctx.tlc("MC_Rules", cfg, replay="rules", coverage=False)
     # interface hierarchies: closure = transitive closure, shadowing = redeclaration (model checked), then compiled
